@@ -1006,6 +1006,9 @@ class Engine:
                 # at least one process ran within the interval
                 # increase the time, apply updates, and continue
                 self.global_time += full_step
+                if self.global_time_precision is not None:
+                    self.global_time = round(
+                        self.global_time, self.global_time_precision)
 
                 # advance all quiet processes to current time
                 for quiet in quiet_paths:
